@@ -13,9 +13,29 @@ from concurrent.futures import ThreadPoolExecutor
 VERIF = os.path.dirname(os.path.dirname(os.path.abspath(__file__)))
 REPO = os.environ.get("VERIF_REPO", "/repo")
 SPEC = os.path.join(VERIF, "spec")
-WORK = os.path.join(VERIF, "work")
+WORK = os.environ.get("VERIF_WORK") or os.path.join(VERIF, "work")
 HARNESS = os.path.join(VERIF, "harness")
-EVID = os.path.join(VERIF, "evidence")
+
+
+def _alt_harness():
+    """When VERIF_REPO points at another checkout (self-test on scratch worktrees) the harness is built through a
+    generated manifest whose path dependency is that checkout; sources are the same files (symlink)."""
+    h = os.path.join(WORK, "harness-alt")
+    if os.path.isdir(h):
+        shutil.rmtree(h)
+    os.makedirs(os.path.join(h, ".cargo"))
+    man = open(os.path.join(VERIF, "harness", "Cargo.toml")).read().replace('path = "/repo"', 'path = "%s"' % REPO)
+    open(os.path.join(h, "Cargo.toml"), "w").write(man)
+    shutil.copy(os.path.join(VERIF, "harness", "Cargo.lock"), h)
+    os.symlink(os.path.join(VERIF, "harness", "src"), os.path.join(h, "src"))
+    open(os.path.join(h, ".cargo", "config.toml"), "w").write(open(os.path.join(VERIF, "harness", ".cargo", "config.toml")).read().replace('target-dir = "../work/target"', 'target-dir = "%s/target"' % WORK))
+    return h
+
+
+if REPO != "/repo":
+    os.makedirs(WORK, exist_ok=True)
+    HARNESS = _alt_harness()
+EVID = os.environ.get("VERIF_EVIDENCE") or os.path.join(VERIF, "evidence")
 KNOWN = os.path.join(VERIF, "known_findings.json")
 NCPU = os.cpu_count() or 4
 
@@ -224,7 +244,7 @@ def build_simd128():
     """The simd128 vehicle: cfg-rewritten copy of /repo's current src + emulated intrinsics (optional vehicle)."""
     if "simd128" in _built:
         return _built["simd128"]
-    p = subprocess.run([os.path.join(VERIF, "bin", "mk_simd128")], stdout=subprocess.PIPE, stderr=subprocess.STDOUT, text=True)
+    p = subprocess.run([os.path.join(VERIF, "bin", "mk_simd128")], stdout=subprocess.PIPE, stderr=subprocess.STDOUT, text=True, env=dict(os.environ, VERIF_WORK=WORK))
     if p.returncode != 0:
         raise ToolError("mk_simd128 failed: " + p.stdout[-2000:])
     env = dict(os.environ)
